@@ -6,6 +6,8 @@
 
 #include <atomic>
 
+#include "verif_hook.h"
+
 namespace yakushima {
 
 using Epoch = std::uint64_t;
@@ -14,7 +16,10 @@ class epoch_management {
 public:
     static void epoch_inc() { epoch_.fetch_add(1); }
 
-    static Epoch get_epoch() { return epoch_.load(std::memory_order_acquire); }
+    static Epoch get_epoch() {
+        YAKUSHIMA_VERIF_POINT(ATOMIC, &epoch_);
+        return epoch_.load(std::memory_order_acquire);
+    }
 
 private:
     /**
